@@ -2,6 +2,8 @@ package nfa
 
 import (
 	"regexp/syntax"
+	"unicode"
+	"unicode/utf8"
 )
 
 // FirstByteSet represents the set of bytes that can start a match.
@@ -76,13 +78,21 @@ func extractFirstBytesRecursive(re *syntax.Regexp, result *FirstByteSet, depth i
 		if len(re.Rune) == 0 {
 			return false // Empty literal matches empty string
 		}
+		// The first byte is the UTF-8 lead byte of the rune. A case-insensitive
+		// literal stores one representative of its fold orbit (k, K, U+212A).
 		r := re.Rune[0]
-		if r > 255 {
-			return false // Non-ASCII, too complex
+		for f := r; ; {
+			if b := utf8.AppendRune(nil, f)[0]; !result.bytes[b] {
+				result.bytes[b] = true
+				result.count++
+			}
+			if re.Flags&syntax.FoldCase != 0 {
+				f = unicode.SimpleFold(f)
+			}
+			if f == r {
+				return true
+			}
 		}
-		result.bytes[byte(r)] = true
-		result.count++
-		return true
 
 	case syntax.OpCharClass:
 		// Character class: add all bytes in the class
